@@ -85,7 +85,9 @@ func (c11Sys) Root() *c11State {
 	return &c11State{ctx: w.Ctx, w: w}
 }
 
-func (c11Sys) Digest(s *c11State) [32]byte { return s.w.Digest(s.ctx) }
+// the model is part of the state key: a change that turns an operation into a no-op on the stores must
+// not make the successor look like an already visited state (its model differs, and Check has to see it)
+func (c11Sys) Digest(s *c11State) [32]byte { return s.w.Digest(s.ctx, []byte(fmt.Sprint(s.m))) }
 
 func (c11Sys) Letters(s *c11State) []engine.Letter {
 	var ls []engine.Letter
